@@ -150,6 +150,11 @@ def main():
                 origs = [m, extra, extra, max(m, 1) + 5]
                 if len(recs) != 4:
                     leg.violation("C06/e2e/cached-reply-lost-records", "%s: %d records" % (name, len(recs)), replay)
+                # the two answers form one RRset (a cache may serve it in any order): pair them with their originals by TTL rank
+                if len(recs) == 4 and m != extra:
+                    a = sorted(recs[:2], key=lambda x: x[2])
+                    recs = a + list(recs[2:])
+                    origs = sorted(origs[:2]) + origs[2:]
                 for (rec, o) in zip(recs, origs):
                     ttl = rec[2]
                     if ttl > o:
